@@ -62,7 +62,10 @@ class PedanticBufferReader {
     if (length_bytes > (size_ - index_))
       return ErrorStatus::ReadLimitReached;
 
-    std::memcpy(begin, &buffer_[index_], length_bytes);
+    // An empty range may be denoted by null pointers (the data() of an empty
+    // vector): memcpy requires valid pointers even when the length is zero.
+    if (length_bytes > 0)
+      std::memcpy(begin, &buffer_[index_], length_bytes);
     index_ += length_bytes;
     return {};
   }
